@@ -22,13 +22,14 @@ import (
 	"verifharness/vlib"
 )
 
-// c13Names is the 5-name alphabet (collisions and shadowing are common).
+// c13Names is the 5-name alphabet (collisions and shadowing are common). Some
+// names differ in a single byte only (first, second or last position).
 var c13Names = [5][amlNameLen]byte{
 	{'A', 'A', 'A', 'A'},
-	{'_', 'B', '0', '_'},
-	{'C', '1', '_', '_'},
-	{'Z', 'Z', '9', 'Z'},
-	{'_', '_', '_', '_'},
+	{'A', 'A', 'A', 'B'},
+	{'A', '0', 'A', 'A'},
+	{'_', 'A', 'A', 'A'},
+	{'_', '_', '9', '_'},
 }
 
 // c13Kinds are the object kinds used for nodes: named kinds, kinds that are not
@@ -895,7 +896,7 @@ var c13RawPatterns = [][]byte{
 	{0x2f, 0x03, 'A', 'A', 'A', 'A'}, {0x2f, 0xff, 'A', 'A', 'A', 'A'}, {'A', 'A', 'A', 'A', 0x2e, 'A', 'A', 'A', 'A'},
 }
 
-var c13RawBytes = []byte("AAAA_B0_C1__ZZ9Z____\\^./\x00\x01\x02\x03\x41\x5f09az \xff")
+var c13RawBytes = []byte("AAAAAAABA0AA_AAA__9_\\^./\x00\x01\x02\x03\x41\x5f09az \xff")
 
 func c13GenLookup(t *rapid.T) *c13Lookup {
 	l := &c13Lookup{Scope: rapid.IntRange(0, 299).Draw(t, "scope")}
